@@ -18,7 +18,7 @@ P
 while read id prop commit; do
   extra=""
   case "$id" in D3) extra="C03 C18";; D1|D21) extra="C02";; D8) extra="C14";; D6|D4|D26) extra="";; D24) extra="C11";; D16) extra="C05";; esac
-  if ! git diff "$commit" "$commit^" | git apply 2>/dev/null; then
+  if ! git diff "$commit" "$commit^" | git apply 2>/dev/null && ! { [ -f /verif/seeded/revert_${id}_handmade.diff ] && git apply /verif/seeded/revert_${id}_handmade.diff; }; then
     echo "{\"reverted\":\"$id\",\"commit\":\"$commit\",\"error\":\"reverse patch does not apply\"}" >> "$OUT"; echo "$id: reverse patch does not apply"; git checkout -- .; continue
   fi
   for c in $prop $extra; do
